@@ -5,8 +5,7 @@ from gen import history as H
 HEAVY = ('rvf', 'cvf', 'aaf', 'pcm', 'crf', 'tscf', 'flexray', 'most', 'can')
 
 
-def run(tier, only=None):
-    chk = Check('C05', tier)
+def build(tier, only, chk):
     jobs = []
     for b in bindings(only, chk):
         k = 2 if tier == 'quick' else 3
@@ -29,6 +28,12 @@ def run(tier, only=None):
         jobs.append(Job('c05.%s.algebra' % b.fmt, H.c05_algebra(b), b.sources, unwind=70, unwindset=WALKER,
                         timeout=900, backend='cadical',
                         meta={'format': b.fmt, 'domain': 'symbolic field ids f,g in range, all values, all buffers'}))
+    return jobs
+
+
+def run(tier, only=None):
+    chk = Check('C05', tier)
+    jobs = build(tier, only, chk)
     chk.run(jobs)
     chk.assumptions = STD_ASSUME + [
         'histories longer than the explicit bound rest on induction: step lemma (C02/C04: post-state == reference '
